@@ -36,6 +36,38 @@ func makeVocab(r *engine.PRNG) []string {
 		}
 		v = append(v, pr[0], pr[1])
 	}
+	if r.Intn(3) == 0 {
+		// a family of bit-neighbours: one string of a length around the sizes at
+		// which a table might switch representation (machine words, small
+		// buffers) and its eight variants with one bit of one byte flipped. Any
+		// key that packs or truncates the bytes loses some bit of some byte.
+		ls := []int{1, 2, 3, 4, 5, 7, 8, 9, 15, 16, 17, 24, 31, 32, 33}
+		l := ls[r.Intn(len(ls))]
+		base := make([]byte, l)
+		for j := range base {
+			base[j] = byte('a' + r.Intn(26))
+		}
+		pos := l - 1
+		switch r.Intn(4) {
+		case 0:
+			pos = 0
+		case 1:
+			pos = r.Intn(l)
+		}
+		fam := []string{string(base)}
+		for bit := 0; bit < 8; bit++ {
+			b := append([]byte(nil), base...)
+			b[pos] ^= 1 << uint(bit)
+			fam = append(fam, string(b))
+		}
+		// in a PRNG-drawn order
+		for i := len(fam) - 1; i > 0; i-- {
+			j := r.Intn(i + 1)
+			fam[i], fam[j] = fam[j], fam[i]
+		}
+		v = append(v, fam...)
+		n = 1 + r.Intn(3)
+	}
 	for i := 0; i < n; i++ {
 		switch r.Intn(5) {
 		case 0:
@@ -64,7 +96,27 @@ func decodeOp(sc *Scenario, r *engine.PRNG, cfg world.InstCfg, tn string, size i
 		return op, false
 	}
 	op.Data = d
+	foreignWriter(r, &op)
 	return op, true
+}
+
+// foreignWriter: one record in eight arrives as another writer of the same wire
+// format might have written it - the fields of struct bodies and map entries
+// in a different order. The reader must cope; what it decodes is whatever the
+// same call gives alone (model-based oracles are not applied: plenc documents
+// no meaning for, e.g., a map entry whose value precedes its key).
+func foreignWriter(r *engine.PRNG, op *Op) {
+	if r.Intn(8) != 0 {
+		return
+	}
+	raw, err := hex.DecodeString(op.Data)
+	if err != nil {
+		return
+	}
+	if out, changed := world.PermuteFields(typeInfo(op.Type).T, raw, r.Intn); changed {
+		op.Data = hex.EncodeToString(out)
+		op.Pat = "damaged"
+	}
 }
 
 // relatedDecodeOp: like decodeOp but the value is a mutation of the value
